@@ -61,9 +61,13 @@ def plan(S, prop, mode, tier, avoid):
             op["edge"] = 0.0
         if k == "cap":
             ra, dec = _draw_center(r)
-            op.update({"n": wpick(r, [(1, 1), (r.randrange(2, 30), 4), (r.randrange(30, 400), 1)]),
+            op.update({"n": wpick(r, [(1, 1), (r.randrange(2, 30), 4), (r.randrange(30, 400), 1),
+                                      (r.randrange(1000001, 2600000), 0.004)]),      # rarely more than a million points
                        "ra": ra, "dec": dec, "rad": _draw_radius(r, avoid_small),
                        "get_radius": chance(r, 0.5), "dorot": chance(r, 0.3)})
+            if op["n"] > 100000:
+                op["edge"] = 0.0            # (edge deviates are forced one by one in Python: not for a million draws)
+                op["rad"] = max(op["rad"], 1e-3)
         elif k == "box":
             bk = wpick(r, [("any", 5), ("full", 1), ("zero_ra", 1), ("zero_dec", 1), ("polar", 1.5), ("default", 1)])
             a0, a1 = sorted([round(r.uniform(0, 360), 4), round(r.uniform(0, 360), 4)])
@@ -121,6 +125,11 @@ def plan(S, prop, mode, tier, avoid):
             unique = chance(r, 0.6)
             nr = r.randrange(0, imax + 1) if unique else r.randrange(0, 3 * imax + 2)
             op.update({"imax": imax, "nrand": nr, "unique": unique, "how": pick(r, ["rng", "seed", "real"])})
+            if chance(r, 0.01):
+                # a sparse unique draw from a large range with a real generator (the birthday effect makes repeated
+                # candidate values likely: ~1e5 out of 5e6)
+                big = pick(r, [2000000, 5000000, 8000000])
+                op.update({"imax": big, "nrand": big // pick(r, [50, 60, 100]), "unique": True, "how": "real"})
         ops.append(op)
     return {"cfg": {}, "ops": ops}
 
